@@ -16,10 +16,10 @@ CHECKS = {
  "C02": ("property-based round trip: abstract packet -> public constructors -> build_bytes_vec -> parse -> field-by-field observation",
          "Generated packets over every typed variant, unknown and empty RDATA, binary labels, boundary integers, EDNS, named codes, plus suffix-sharing packets of up to 65535 bytes and packets assembled through the text / map / setter based constructors; names are built by one of three public routes per packet (from labels, through Name::without, from text); the parsed packet is observed through public accessors and byte hooks and compared with the generating model, not with the library's own PartialEq.",
          "Trusts the bridge (checks keyed by field name) and the documented construction domain (exclusions listed in the evidence assumptions).", "4/C02"),
- "C03": ("property-based differential: compressed vs plain serialisation vs model, suffix-sharing names, sizes straddling 16 KiB",
+ "C03": ("property-based differential: compressed vs plain serialisation vs model, suffix-sharing names, sizes straddling 16 KiB; writer entry point also at a non-zero origin, through short-write writers and into a reused buffer holding stale content",
          "Generated suffix-sharing packets with filler that moves names just below / at / above offset 16383 and up to 65535 bytes; compressed and plain outputs must parse to the model and compressed must not be longer; the compressed form is also written at a non-zero stream offset and through a writer accepting 1..3 bytes per call; names by three public routes, NSEC windows stored in descending order in a fifth of the packets.",
          "Same exclusions as C02; large messages are a weighted minority of cases (reported in coverage.classes).", "4/C03"),
- "C04": ("property-based + capacity enumeration: independent envelope walker and byte equality across writer configurations",
+ "C04": ("property-based + capacity enumeration: independent envelope walker and byte equality across writer configurations; extended response code without an OPT set framed too",
          "Generated packets (names built from labels, through Name::without or from text), packets built through the alternative constructors and packets obtained from the parser x {plain, compressed} x {Vec, growable cursor at offset 0/2/k over empty and pre-filled storage, writers accepting 1/3/7 bytes per call, fixed slices and cursors of every capacity 0..len+2}; framing checked by an independent RFC 1035 walker plus the schema decoder (a verdict that hinges on where a compression pointer leads is taken again with names read in place only).",
          "Capacity sweep is complete only for 15% of packets up to 600 bytes, 11 boundary capacities otherwise; cursor position after the write is not checked.", "4/C04"),
  "C05": ("property-based differential against an independent RFC 1035 envelope walker + schema decoder confined to each RDLENGTH slice",
@@ -31,10 +31,10 @@ CHECKS = {
  "C07": ("property-based with an independent schema-aware pointer walker over compressed output, writers at non-zero origin",
          "Every name occurrence (question, owner, RDATA names by type) of generated compressed messages is located independently; pointers must be backwards, <= 16383, onto a label start of an earlier-written name and relative to the message start; forbidden positions uncompressed; repeated RFC 1035 names compressed.",
          "RP/AFSDB/RT/NSAP-PTR names are accepted compressed or not (statement silent).", "4/C07"),
- "C08": ("exhaustive enumeration of all header words / flag-set pairs against an RFC 1035 bit-layout oracle",
+ "C08": ("exhaustive enumeration of all header words / flag-set pairs against an RFC 1035 bit-layout oracle; build side through every writer entry point, also at non-zero stream positions",
          "Complete enumeration of the finite input space named by the property (65536 words x ids, 128x128 flag sets, named opcode x rcode x flags), extended to words followed by an OPT record, opcode/rcode/flags assigned after parsing, 0..5000 entries actually present per section and all writer kinds; every value is compared with an independently written bit decomposition.",
          "Trusts the bit layout typed into checks/c08.rs from RFC 1035 4.1.1; counts are sampled, not enumerated, for the peek functions.", "4/C08"),
- "C09": ("property-based differential against an independent RFC 6891 OPT encoder/decoder, build and parse side",
+ "C09": ("property-based differential against an independent RFC 6891 OPT encoder/decoder, build and parse side, and received packets whose EDNS members, response code and additional section are edited before being written again",
          "Build side: an independent walker checks the single OPT record (section, ARCOUNT, root owner, CLASS, TTL octets, RDATA, header nibble). Parse side: reference encodings with OPT at any additional index, arbitrary DO/Z bits and 12-bit response codes.",
          "Unnamed response codes only need to show as Reserved.", "4/C09"),
  "C10": ("property-based differential against an independent declarative RFC schema (encoder + decoder), byte for byte, plus structural-rule and mutation cases, anchored on dnspython samples",
@@ -46,7 +46,7 @@ CHECKS = {
  "C12": ("property-based: every public observer (incl. Display / Debug with width, precision, alignment and alternate flags) applied to every part of parser-accepted packets under panic capture, with UTF-8 metamorphic checks",
          "Inputs biased to invalid UTF-8, NUL, dots, backslashes, empty and maximal strings; Debug/Display/clone/into_owned/eq/hash/suffix algebra/matching/TXT conversions are all invoked on every part.",
          "WireFormat::len is crate-private and not an observer.", "4/C12"),
- "C13": ("model-based testing: bounded-exhaustive catalogue + random histories over every record type against a set-based reference store and matcher (lower/upper bound on answers)",
+ "C13": ("model-based testing: bounded-exhaustive catalogue + random histories over every record type against a set-based reference store and matcher (lower/upper bound on answers), the query also asked between the operations of a history",
          "Every subset of <= 3 (4) records of a 19-record catalogue whose names collide under concatenation x 528 questions and sampled pairs (each subset of 2..3 also with one member add-cached), plus random add/remove/clear histories and queries; answers must lie between the must-answer and may-answer sets; additional records, id, flags, unicast and no-reply conditions checked.",
          "Lowercase names only; MAILA/AXFR/IXFR matching not claimed; driven through the simple_mdns::verif hook.", "4/C13"),
  "C14": ("property-based sequences through a step-for-step copy of the three receive loops under panic capture and a real RwLock (supervised child process: a stack overflow or abort is decided by a crash journal), an alignment sweep of replies beyond 16 KiB, plus sampled fault injection over real loopback multicast sockets (sync and async services and resolvers)",
@@ -55,10 +55,10 @@ CHECKS = {
  "C15": ("model-based testing: advertise (full, partial, reply-style) -> compressed wire -> ingest (sync / async) -> virtual time -> report, two-sided comparison with what the receptions imply; escape/unescape round trip",
          "Peers, repeated announcements and noise (own instance, service-name PTR, colliding foreign services, deeper names) (in reply style produced by the library's own build_reply answering the discoverer's two-question query) are ingested with the receive loop's own function and read back as get_known_services does; reported set must equal the advertised set exactly.",
          "Driven through the simple_mdns::verif hook with the store initialised as ServiceDiscovery::new does; the async variant shares the store and from_records only.", "4/C15"),
- "C16": ("property-based: clone / into_owned / built-vs-parsed triples compared by ==, observation, hash and bytes; twins differing in one field, in padding, in letter case, in class or in the way their type is named (== implies equal hashes); set-valued values rebuilt in permuted orders",
+ "C16": ("property-based: clone / into_owned / built-vs-parsed triples compared by ==, observation, hash and bytes; twins differing in one field, in padding, in letter case, in class or in the way their type is named (== implies equal hashes); set-valued values rebuilt in permuted orders and as near twins (equal => same hash and one set slot, unequal => two)",
          "Three versions of every value (built, borrowed from plain buffer, borrowed from compressed buffer) and their clones / owned copies must be equal, hash equally and serialise identically; InstanceInformation rebuilt 32 times in rotated/reversed insertion orders.",
          "DefaultHasher::new() for hash comparison; HashSet RandomState only affects how fast an order-dependent Hash is caught.", "4/C16"),
- "C17": ("bounded-exhaustive enumeration of strings / lengths / name pairs against a grammar and suffix oracle, through Name::new and Name::try_from",
+ "C17": ("bounded-exhaustive enumeration of strings / lengths / name pairs against a grammar and suffix oracle, through Name::new and Name::try_from, including every pair of names sliced from one backing text",
          "All strings up to length 6 (7 thorough) over the 8-symbol alphabet, all label lengths 0..70, wire lengths 240..260, all pairs of small names: exhaustive within the stated bounds, sampled beyond them.",
          "Grammar written from the statement; 'letter/digit' read as ASCII.", "4/C17"),
  "C18": ("exhaustive enumeration of all 16-bit codes and the full record x question x class x cache-flush matrices against an IANA table, plus property-based checks that records parsed from mutated encodings report the TYPE / CLASS of their wire entry",
